@@ -139,6 +139,11 @@ def bloch_case(draw, with_rotation=True, force_zero=False):
         "thermal_sigma": draw(st.sampled_from([0.0, 0.0, 0.05, 0.1])),
         "thicknesses": draw(thickness_spec()),
     }
+    # a cutoff sphere passing exactly through a reflection (users type round g_max values on
+    # round lattice constants): beam selection and the structure-factor set must agree on
+    # boundary reflections whatever the rotation (regression of fix 2995d015)
+    if draw(st.integers(0, 3)) == 0:
+        case["g_max_hk"] = [draw(st.integers(1, 6)), draw(st.integers(0, 6))]
     if force_zero:
         t = case["thicknesses"]
         if isinstance(t, list):
@@ -156,6 +161,12 @@ def build_bloch(case):
     spec = case["crystal"]
     atoms = make_crystal(spec)
     g_max = g_max_for(spec, case["n_target"])
+    if case.get("g_max_hk"):
+        h, k = case["g_max_hk"]
+        g = float(np.linalg.norm(np.array([h, k, 0.0]) @ np.asarray(atoms.cell.reciprocal())))
+        # keep the number of zero-order beams within the range n_target spans (<= ~150)
+        if 1.05 / min(spec["a"], spec["b"]) <= g and math.pi * g * g * area_xy(spec) <= 150:
+            g_max = g
     if case["via"] == "atoms":
         bw = abtem.BlochWaves(atoms, energy=case["energy"], sg_max=case["sg_max"], g_max=g_max, use_wave_eq=case["use_wave_eq"])
     else:
@@ -183,6 +194,7 @@ def _setup(case, ctx):
     n = len(bw)
     ctx.label(case["crystal"]["lattice"])
     ctx.label("rotated", case["rotation"] is not None)
+    ctx.label("g_max_on_reflection", bool(case.get("g_max_hk")))
     ctx.label("use_wave_eq", case["use_wave_eq"])
     ctx.label("beams>=5", n >= 5)
     if n > MAX_BEAMS:
@@ -331,6 +343,10 @@ def _angles(draw, pairs=False, max_size=3):
 @st.composite
 def ensemble_case(draw):
     case = draw(bloch_case(with_rotation=False))
+    # cutoff spheres through a reflection are drawn for single orientations only: for
+    # ensembles they hit a genuine, recorded defect (known_findings.json, replay
+    # replays/C26/ensemble-d6d9d9d5.json) whose manifestation depends on rounding
+    case.pop("g_max_hk", None)
     case["n_target"] = min(max(case["n_target"], 20), 80)
     kind = draw(st.sampled_from(["x", "y", "x,y", "xy"]))
     if kind in ("x", "y"):
